@@ -536,3 +536,40 @@ Definition outside_untouched (sc : scase) : bool :=
 Definition check_scoped (sc : scase) : nat :=   (* 0 = fine, 1 = monitor fails, 2 = model rejects *)
   let c' := scoped_case sc in
   if monitor c' then (if accepts_any c' && outside_untouched sc then 0%nat else 2%nat) else 1%nat.
+
+(* ---- lazily created node clients (app/eth2wrap/lazy.go) ----
+
+   The production constructor wraps every node in a lazy client: the first call that needs the
+   node runs provider(ctx) -- with the CALL's context -- to create the underlying client, caches it,
+   and then makes the call.  Seen from provide, such a node is a node whose call takes
+   provider latency + call latency and which returns as soon as its context is cancelled also while
+   the provider runs; a provider that fails makes the node fail with that error (the client stays
+   uncreated).  Once the client exists the wrapper is transparent. *)
+
+Inductive prov :=
+| PNone | PCreated            (* not wrapped / client already exists *)
+| PDelay (d : N)              (* provider returns the client after d (0 = immediately), honouring its context *)
+| PFail (c : eclass) (d : N). (* provider fails with an error of class c after d *)
+
+Definition lazy_node (p : prov) (n : node) : node :=
+  match p with
+  | PNone | PCreated => n
+  | PDelay d => mkn (out n) (d + delay n) (deaf n)
+  | PFail c d => mkn (Err c) d false
+  end.
+
+Fixpoint lazy_nodes (ps : list prov) (l : list node) : list node :=
+  match ps, l with
+  | p :: ps', n :: l' => lazy_node p n :: lazy_nodes ps' l'
+  | _, _ => l
+  end.
+
+Record lcase := mkl { l_pp : list prov; l_pf : list prov; l_case : case }.
+
+Definition lazy_case (lc : lcase) : case :=
+  let c := l_case lc in
+  let prim := lazy_nodes (l_pp lc) (c_prim c) in
+  let fb := lazy_nodes (l_pf lc) (c_fb c) in
+  mkc (c_style c) prim fb (canon_order prim) (canon_order fb) (c_tc c) (o_res c) (o_time c) (o_sp c) (o_sf c).
+
+Definition check_lazy (lc : lcase) : nat := check_case (lazy_case lc).
